@@ -22,7 +22,7 @@ ASSUMPTIONS = ["faults are injected at the solver boundary (QuantileRegressionSo
 BATCH = {"quick": 1, "thorough": 2}
 BUDGET = {"quick": 150, "thorough": 1500}
 MIN_NONTRIVIAL = {"quick": 8, "thorough": 12}
-N = {"quick": 16, "thorough": 220}
+N = {"quick": 36, "thorough": 400}
 CASE_TIMEOUT = 900
 
 
@@ -221,6 +221,7 @@ def run_case(spec, inputs=None):
                 sigs.append([call["pi_method"], role, kind, bool(call["model_parameters"].get("lambda_")),
                              len(call["estimands"]), len(call["prediction_intervals"])])
         out["sets"]["positions"] = sigs
+        out["sigs"] = sigs
         out["nontrivial"] = bool(sigs)
         if sigs:
             out["sig"] = sigs[0][:1] + sigs[0][3:]
